@@ -188,3 +188,34 @@ fix_size_exceeds (mpz_ptr w, mpz_srcptr u)
   MPN_COPY (wp, PTR (u), n);
   SIZ (w) = n + 1;
 }
+
+/* negative: the pointer that is read afterwards is redirected to the output on the path that wrote the output */
+void
+fix_alias_selected (mpz_ptr z, mpir_ui l, mpz_srcptr w)
+{
+  int negative = (SIZ (w) < 0);
+  mpz_srcptr absw = w;
+  if (negative)
+    {
+      mpz_neg (z, w);
+      absw = z;
+    }
+  if (mpz_fits_ui_p (absw))
+    mpz_set_ui (z, l / mpz_get_ui (absw));
+  else
+    mpz_set_ui (z, 0);
+}
+
+/* positive twin: not redirected - w is read after z, which may be w, was negated */
+void
+fix_alias_selected_bad (mpz_ptr z, mpir_ui l, mpz_srcptr w)
+{
+  int negative = (SIZ (w) < 0);
+  mpz_srcptr absw = w;
+  if (negative)
+    mpz_neg (z, w);
+  if (mpz_fits_ui_p (absw))
+    mpz_set_ui (z, l / mpz_get_ui (absw));
+  else
+    mpz_set_ui (z, 0);
+}
